@@ -5,6 +5,9 @@ VERIF = os.path.dirname(os.path.dirname(os.path.abspath(__file__)))
 props = {json.loads(l)["id"]: json.loads(l) for l in open(os.path.join(VERIF, "properties.jsonl"))}
 
 CHECKS = {
+ "C12": dict(cat="exploration", technique="stateful property-based testing with forged-header generators (re-mined, self-consistent commitments) and a ground-truth registry; invariant over the history of the stored (tip, total difficulty, last-N) triple",
+   text="Histories over up to 4 honest / deviating peers on a main chain and a competing fork: answers in any order, growth, restarts, children of the proven header with forged chain roots (inflated, deflated, wrong MMR root, other parent), proofs with a forged last header. After every event a change of the stored triple must be to a currently proven header, strictly heavier, with the TRUE cumulative difficulty, and last-N must be the true ancestor chain; restart reproduces the triple; finally honest growth must be able to move the tip.",
+   note="Forged headers pass PoW and their own chain-root commitment by construction. Fixed by this check: D8 (child fast path), D24 (last-N merge).", ref="6/C12"),
  "C11": dict(cat="exploration", technique="model-based (stateful) property-based testing: generated event sequences stepped in lock-step against a reference model of the peer state diagram plus history invariants",
    text="Sequences of up to 40 events (connect, disconnect, refresh/fetch ticks, clock steps at the 8 s / 60 s boundaries, solicited / stale / unsolicited / corrupted proofs, five kinds of last-state announcements, fetch requests) for 1..3 peers; after every event each peer's state must be in the model's allowed set and the invariants I1-I4 (proof only for the outstanding request, proof never discarded by a last-state update, exactly the expired peers disconnected, disconnect leaves nothing but re-queued fetches) must hold.",
    note="Bounded sequences; honest content taken from a small mined chain so that validity is controlled by construction.", ref="6/C11"),
